@@ -164,7 +164,7 @@ Section RecD.
 
   Lemma leaveD_rec (wr : bool) f t0 t1 i dp0 mx0 dp mx stk ri ou hk : (t0 < t1)%N -> (t1 < two64)%N ->
     MC.dstep mc (mkD i 0 dp0 mx0 (FrD false false wr f t0 0 ri dp mx :: stk) (ri + 1) ou, true :: hk) (MC.Leave t1)
-    = (if wr || (threshold c <? tdelta t1 t0)%N
+    = (if wr || (threshold c <=? tdelta t1 t0)%N
        then mkD i 0 dp mx (if wr then stk else markw stk) ri
                 (ou ++ (if wr then [] else pend stk ++ [mflat_rec false ri t0 f]) ++ [mflat_rec true ri t1 f])
        else mkD i 0 dp mx stk ri ou, hk).
@@ -174,7 +174,7 @@ Section RecD.
     assert (Ht1 : (t1 =? 0)%N = false) by lia.
     mstep. cbn -[N.modulo N.add N.sub N.ltb MC.flush_anc]. rewrite Hcl. cbn -[N.modulo N.add N.sub N.ltb MC.flush_anc].
     rewrite Hri.
-    destruct (threshold c <? (t1 + 18446744073709551616 - t0) mod 18446744073709551616)%N eqn:EL;
+    destruct (threshold c <=? (t1 + 18446744073709551616 - t0) mod 18446744073709551616)%N eqn:EL;
       cbn -[N.modulo N.add N.sub N.ltb MC.flush_anc]; unfold MC.record_trace_data; cbn -[MC.flush_anc];
       destruct wr; cbn -[MC.flush_anc]; rewrite ?Ht1; try reflexivity;
       unfold markw, pend; destruct (MC.flush_anc stk) as [anc' pre]; cbn; rewrite ?Ht1;
@@ -256,7 +256,7 @@ Section RecD.
           -- cbn [afterD]. cbn [MC.exec fold_left].
              rewrite (leaveD_rec false f t0 t1 i (dp1 + 1)%N mx1 dp mx stk ri ou hk H01 H1).
              unfold keep. cbn [is_nil negb orb].
-             destruct (threshold c <? tdelta t1 t0)%N; [|reflexivity].
+             destruct (threshold c <=? tdelta t1 t0)%N; [|reflexivity].
              cbn [afterD flat_map mflat]. unfold mkD. rewrite app_nil_r. rewrite <- ?app_assoc. reflexivity.
           -- cbn [afterD]. destruct (markw_consD f t0 ri dp mx stk) as [M P]. rewrite M, P.
              cbn [MC.exec fold_left].
@@ -302,7 +302,7 @@ Proof.
     rewrite (flat_map_nil (tprune c (threshold c)) ks) by (eapply Forall_impl; [|exact K]; cbn; intros k [H _]; exact H).
     rewrite (tdelta_sub t0 t1) by lia. replace (t1 - t0 <? threshold c)%N with true by lia. reflexivity.
   - intros dp mx. cbn [selD]. rewrite !Ks. unfold keep. cbn [is_nil negb orb].
-    rewrite (tdelta_sub t0 t1) by lia. replace (threshold c <? t1 - t0)%N with false by lia.
+    rewrite (tdelta_sub t0 t1) by lia. replace (threshold c <=? t1 - t0)%N with false by lia.
     destruct (q_filter (trig_of c f)) as [[|]|]; try reflexivity; destruct (_ <=? _)%N; reflexivity.
 Qed.
 
@@ -344,7 +344,7 @@ Proof.
   destruct (Htr f) as (Ef & HnF & Hdr).
   cbn [flat_map vis selD]. rewrite app_nil_r. rewrite Hfm, (Hp f), (loc_free_hidden c f Hlf).
   replace (q_hide (trig_of c f)) with false by (rewrite Ef; reflexivity).
-  unfold keep. replace (threshold c <? tdelta t1 t0)%N with true by lia. rewrite !orb_true_r.
+  unfold keep. replace (threshold c <=? tdelta t1 t0)%N with true by lia. rewrite !orb_true_r.
   destruct (q_filter (trig_of c f)) as [[|]|] eqn:Eq; [congruence|reflexivity|].
   cbn [negb andb orb]. rewrite ?orb_false_r.
   set (dp1 := match q_depth (trig_of c f) with Some _ => 0%N | None => dp end).
